@@ -1156,7 +1156,11 @@ class Processor:
 
                 if intmin == intmax and -len(data) <= intmin < len(data):
                     yield NodeCoords(
-                        [data[intmin]], data, intmin,
+                        [NodeCoords(
+                            data[intmin], data, intmin,
+                            translated_path + "[{}]".format(intmin),
+                            ancestry + [(data, intmin)], pathseg)],
+                        data, intmin,
                         translated_path + "[{}]".format(intmin),
                         ancestry + [(data, intmin)], pathseg)
                 else:
